@@ -226,6 +226,12 @@ func factsRouting() {
 	} else {
 		ok, why = false, "partitionsBatchRequest not found"
 	}
+	if gt, gfd := bodyText("storage/dataset.go", "Dataset", "groupBatchItemsByPartition"); gfd == nil {
+		unrec("batch_grouping_shape", "bool", "groupBatchItemsByPartition not found")
+	} else {
+		known("batch_grouping_shape", "bool", b(gt == "{ result := make(map[*partition][]*pb.BatchItem) for _, item := range items { partition := this.getPartitionForId(uuid.Must(uuid.FromBytes(item.GetId()))) if _, exists := result[partition]; !exists { result[partition] = make([]*pb.BatchItem, 0) } result[partition] = append(result[partition], item) } return result }"),
+			"groupBatchItemsByPartition appends every item to the group of getPartitionForId(item id)")
+	}
 	if ok {
 		known("write_paths_via_owner_fn", "bool", "true", "Insert/Update/Remove and the three batch paths route through getPartitionForId(item id)")
 	} else {
